@@ -324,6 +324,21 @@ def order_docs():
                 yield gram.render(items), items
 
 
+def mixed_arg_strings():
+    """plain strings: a command with <= 3 groups in every order (also brace-then-bracket) and a whitespace tail"""
+    import itertools
+    a = alpha('full')
+    N = a.N
+    groups = ['{%s}' % N.a, '[%s]' % N.b, '{}']
+    tails = ['', ' ', '\n', '\n\n', '\n\n\\' + N.y, ' ' + N.a, '\n\n' + N.a, ' {%s}' % N.a, '\n[%s]' % N.b, '\n\n{%s}' % N.a,
+             '\n\n\n', ' \n \n', '\n\n[']
+    for k in range(1, 4):
+        for gs in itertools.product(groups, repeat=k):
+            for t in tails:
+                yield '\\' + N.x + ''.join(gs) + t
+                yield '$\\' + N.x + ''.join(gs) + t + '$'
+
+
 # ---------------------------------------------------------------------------------------------
 # repository samples and documentation examples
 
